@@ -1,14 +1,17 @@
 from props.common import *
 from props.c05 import oracle_sock
 
+def oracle_c01(case, impl):
+    return oracle_sock(case, impl, check_question=True)
+
 def oracle_conc(case, impl):
     if impl in ("TIMEOUT", "DUP"):
         return "well-formed query got %s instead of exactly one reply" % impl
-    return oracle_sock(case, impl)
+    return oracle_sock(case, impl, check_question=True)
 
 SPEC = dict(
     lean_module="NV.Props.C01",
-    areas=[dict(name="sock", n_quick=3000, n_thorough=40000, shards_thorough=8, oracle=oracle_sock,
+    areas=[dict(name="sock", n_quick=3000, n_thorough=40000, shards_thorough=8, oracle=oracle_c01,
                 nontrivial=lambda c, i: len(i) > 8),
            dict(name="sockconc", n_quick=2400, n_thorough=32000, shards_thorough=4, oracle=oracle_conc,
                 nontrivial=lambda c, i: len(i) > 8)],
